@@ -90,6 +90,13 @@ impl Report {
         }
     }
     pub fn machinery(&mut self, s: String) {
+        // a panic of the subject caught while a session was being prepared is a verdict, not a machinery error
+        if let Some(i) = s.find("SUBJECT-PANIC: ") {
+            let msg = &s[i + 15..];
+            let key = format!("{}/panic/{}", self.id, crate::util::panic_sig(msg.split(" [session ").next().unwrap_or(msg).rsplit("recorded: ").next().unwrap_or(msg)));
+            self.add(Violation { key, what: s.clone(), case: json!({"check": "record-context", "case": {"text": s}}) });
+            return;
+        }
         self.machinery_errors.push(s);
     }
 
